@@ -85,7 +85,7 @@ def writer_bytes(ctx, cls, fn, _depth=0):
     return v, out
 
 
-def reader_expr(ctx, cls, fn):
+def reader_expr(ctx, cls, fn, _depth=0):
     """-> (n_bytes, bitvec over b0..bk) or None"""
     ps = params_of(fn)
     if len(ps) != 1:
@@ -95,6 +95,37 @@ def reader_expr(ctx, cls, fn):
     env = {}
     k = 0
     rets = []
+    import copy as _copy
+
+    def delegate(e):
+        """`self.readIntM(data)` inside an expression: the bytes that narrower reader consumes, renumbered after the ones
+        consumed so far, and its result in place of the call (calls in source order).  -> rewritten expression or None"""
+        nonlocal k
+        e = _copy.deepcopy(e)          # the repository's syntax tree is shared: never rewritten in place
+        calls = [c for c in ast.walk(e) if isinstance(c, ast.Call)]
+        subs = [c for c in calls if is_self_attr(c.func) and re.match(r"^readInt\d+$", c.func.attr) and c.func.attr in cls.methods
+                and c.func.attr != fn.name and len(c.args) == 1 and unparse(c.args[0]) == data]
+        if not subs:
+            return e
+        if _depth >= 3:
+            return None
+        repl = {}
+        for c in sorted(subs, key=lambda c: (c.lineno, c.col_offset)):
+            sub = reader_expr(ctx, cls, cls.methods[c.func.attr], _depth + 1)
+            if sub is None:
+                return None
+            k2, (_s2, bv2) = sub
+            name = "_sub%d" % len(env)
+            env[name] = bits.subst(bv2, {"b%d" % i: bits.var("b%d" % (k + i), 8) for i in range(k2)})
+            k += k2
+            repl[id(c)] = name
+
+        class R(ast.NodeTransformer):
+            def visit_Call(self, node):
+                if id(node) in repl:
+                    return ast.copy_location(ast.Name(id=repl[id(node)], ctx=ast.Load()), node)
+                return self.generic_visit(node)
+        return R().visit(e)
 
     def is_pop(e):
         return isinstance(e, ast.Call) and isinstance(e.func, ast.Attribute) and e.func.attr == "pop" \
@@ -110,7 +141,10 @@ def reader_expr(ctx, cls, fn):
                     env[s.targets[0].id] = bits.var("b%d" % k, 8)
                     k += 1
                 else:
-                    env[s.targets[0].id] = bits.ev(s.value, env, cev)
+                    v2 = delegate(s.value)
+                    if v2 is None:
+                        return False
+                    env[s.targets[0].id] = bits.ev(v2, env, cev)
             elif isinstance(s, ast.Expr) and is_pop(s.value):
                 k += 1     # byte consumed and discarded
             elif isinstance(s, ast.Return):
@@ -120,7 +154,10 @@ def reader_expr(ctx, cls, fn):
                 elif s.value is not None and isinstance(s.value, ast.Constant):
                     continue   # dead default such as `return ""`
                 else:
-                    rets.append((s, bits.ev(s.value, env, cev)))
+                    v2 = delegate(s.value)
+                    if v2 is None:
+                        return False
+                    rets.append((s, bits.ev(v2, env, cev)))
             elif isinstance(s, ast.If):
                 walk(s.body)
                 walk(s.orelse)
